@@ -54,6 +54,12 @@ fn stale(it: &mut Interp, info: &mut StepInfo, kind: u8, which: u16) {
                 for s in [Surf::Raw, Surf::Raii, Surf::Io] {
                     v.push(("read", outcome(&a.read(h, &mut buf, s)), None));
                     v.push(("write", outcome(&a.write(h, b"stale", s)), None));
+                    if s != Surf::Io {
+                        // zero-length transfers are still calls on the handle (the embedded-io
+                        // adapters document an early return for empty buffers)
+                        v.push(("read", outcome(&a.read(h, &mut [], s)), None));
+                        v.push(("write", outcome(&a.write(h, b"", s)), None));
+                    }
                     v.push(("flush_file", outcome(&a.flush(h, s)), None));
                     v.push(("file_seek_from_start", outcome(&a.seek_start(h, 0, s)), None));
                     v.push(("file_seek_from_current", outcome(&a.seek_cur(h, 0, s)), None));
@@ -227,6 +233,8 @@ fn reenter(it: &mut Interp, info: &mut StepInfo, d: u16, lfn: bool, at: u8) {
                 let mut buf = [0u8; 8];
                 results.push(("read", outcome(&a.read(f, &mut buf, Surf::Raw))));
                 results.push(("write", outcome(&a.write(f, b"x", Surf::Raw))));
+                results.push(("read", outcome(&a.read(f, &mut [], Surf::Raw))));
+                results.push(("write", outcome(&a.write(f, b"", Surf::Raw))));
                 results.push(("flush_file", outcome(&a.flush(f, Surf::Raw))));
                 results.push(("file_eof", outcome(&a.eof(f, Surf::Raw))));
                 results.push(("file_seek_from_start", outcome(&a.seek_start(f, 0, Surf::Raw))));
